@@ -176,13 +176,26 @@ def gen_aff(ctx, kind):
     return AffMap(A, b, box), [float(t) for t in v]
 
 
+def tol_form(ctx, tol, what):
+    """a tolerance as Python float / np.float64 / np.float32 / 0-d array; returns (argument, the value it denotes)"""
+    f = ctx.rng.choice(["py", "py", "np.float64", "np.float32", "0-d"])
+    ctx.count("arg-form:%s:%s" % (what, f))
+    if f == "np.float32":
+        return np.float32(tol), float(np.float32(tol))
+    return {"py": tol, "np.float64": np.float64(tol), "0-d": np.array(tol)}[f], tol
+
+
+def int_form(ctx, k, what):
+    f = ctx.rng.choice(["py", "py", "np.int64", "np.int32", "np.intp", "np.uint8" if 0 <= k < 128 else "np.int64", "0-d"])
+    ctx.count("arg-form:%s:%s" % (what, f))
+    return {"py": k, "np.int64": np.int64(k), "np.int32": np.int32(k), "np.intp": np.intp(k), "np.uint8": np.uint8(k % 256),
+            "0-d": np.array(k)}[f]
+
+
 def arg_forms(ctx, tol, mi):
-    """error_tol / max_iter / verbose / print_skip as Python or NumPy scalars"""
-    r = ctx.rng
-    f = [r.choice(["py", "np"]) for _ in range(4)]
-    ctx.count("arg-form:cfp-scalars:%s" % "".join(t[0] for t in f))
-    return (np.float64(tol) if f[0] == "np" else tol, r.choice([np.int64, np.int32])(mi) if f[1] == "np" else mi,
-            np.int64(1) if f[2] == "np" else 1, np.int32(5) if f[3] == "np" else 5)
+    """error_tol / max_iter / verbose / print_skip in their argument forms; returns them and the tolerance denoted"""
+    a_tol, tol_eff = tol_form(ctx, tol, "error_tol")
+    return a_tol, int_form(ctx, mi, "max_iter"), int_form(ctx, 1, "verbose"), int_form(ctx, 5, "print_skip"), tol_eff
 
 
 def v_form(ctx, T, v0):
@@ -504,7 +517,7 @@ def run(ctx):
             ctx.count("iter:scalar-argument")
         with warnings.catch_warnings(record=True) as wl:
             warnings.simplefilter("always")
-            a_tol, a_mi, a_vb, a_ps = arg_forms(ctx, tol, mi)
+            a_tol, a_mi, a_vb, a_ps, tol = arg_forms(ctx, tol, mi)
             v = qe.compute_fixed_point(T, v_form(ctx, T, v0), a_tol, a_mi, a_vb, a_ps, "iteration")
         v = np.atleast_1d(v)
         warned = any(issubclass(w.category, RuntimeWarning) and "max_iter attained" in str(w.message) for w in wl)
@@ -577,7 +590,7 @@ def run(ctx):
             ctx.count("ig:scalar-argument")
         with Recorder() as rec, warnings.catch_warnings(record=True) as wl:
             warnings.simplefilter("always")
-            a_tol, a_mi, a_vb, a_ps = arg_forms(ctx, tol, mi)
+            a_tol, a_mi, a_vb, a_ps, tol = arg_forms(ctx, tol, mi)
             v = qe.compute_fixed_point(T, v_form(ctx, T, v0), a_tol, a_mi, a_vb, a_ps, "imitation_game")
         warned = any(issubclass(w.category, RuntimeWarning) and "max_iter attained" in str(w.message) for w in wl)
         # T is evaluated twice at every visited point (line 191/228 and inside is_approx_fp)
@@ -668,12 +681,9 @@ def run(ctx):
         init, init_wire, init_denotes = gen_init(ctx, nums)
         eps = ctx.rng.choice([1e-2, 1e-3, 1e-4])
         mi = ctx.rng.choice([1, 2, 3, 5, 8, 20, 60, 200])
-        # epsilon / max_iter also as NumPy scalars
-        ef, mf = ctx.rng.choice(["float", "float64"]), ctx.rng.choice(["int", "int64", "int32"])
-        eps_arg = eps if ef == "float" else np.float64(eps)
-        mi_arg = mi if mf == "int" else (np.int64(mi) if mf == "int64" else np.int32(mi))
-        ctx.count("arg-form:epsilon:%s" % ef)
-        ctx.count("arg-form:max_iter:%s" % mf)
+        # epsilon / max_iter in their argument forms; the call itself positional / keyword / with defaults
+        eps_arg, eps = tol_form(ctx, eps, "epsilon")
+        mi_arg = int_form(ctx, mi, "max_iter(mt)")
         visited, images, flags = [], [], []
 
         def brs(x, g, indptr=None):
@@ -965,6 +975,7 @@ def run(ctx):
             ctx.spec_fail("polym_lcp_convergence", "generic payoffs, no convergence within %d pivots" % cap, replay)
         elif res.num_iter != cap:
             ctx.spec_fail("polym_lcp_flag", "not converged after %d != max_iter=%d pivots" % (res.num_iter, cap), replay)
+        return NE, res
 
 
     for _ in range(ctx.n(40, 250)):
@@ -1022,6 +1033,213 @@ def run(ctx):
             if back and (kept < 6 or moved):
                 kept += 1
                 poly_case(N, nums, generic, mats, pg, matq, scale, st, cap=3000)
+
+    # ---- HISTORIES on one object / in one process, KEPT RESULTS, ALIASING ------------------------------------------
+    # Every result returned earlier is kept (live object + its bytes at return time) and re-judged after every later
+    # call: it must be bitwise unchanged; no returned array may share memory with an input, with an earlier result
+    # or with the object's own arrays (documented exceptions are modelled: method='iteration' updates an ndarray `v`
+    # in place and returns that very object; a run that stops at its first evaluation returns the point it was
+    # given); inputs are bitwise unchanged; every answer is a function of the arguments only: the same call on a
+    # freshly built object gives the same bits.
+    kept = []
+
+    def keep(label, arrs, replay):
+        arrs = [np.asarray(a) for a in arrs]
+        kept.append((label, arrs, [a.tobytes() for a in arrs], replay))
+
+    def rejudge(after):
+        for label, arrs, bts, rp in kept:
+            for a, b in zip(arrs, bts):
+                if a.tobytes() != b:
+                    ctx.spec_fail("kept_result_changed", "the result of %s changed after %s" % (label, after),
+                                  {"earlier": rp, "after": after})
+        ctx.count("history:kept-results-rejudged", len(kept))
+
+    def no_share(label, arrs, others, what, replay):
+        for a in arrs:
+            for o in others:
+                if isinstance(o, np.ndarray) and isinstance(a, np.ndarray) and np.shares_memory(a, o):
+                    ctx.spec_fail("aliasing:" + what, "%s returned an array sharing memory with %s" % (label, what), replay)
+        ctx.count("aliasing:checked:" + what)
+
+    # compute_fixed_point, both methods interleaved on one map object
+    for _ in range(ctx.n(6, 40)):
+        kind = ctx.rng.choice(["contraction", "brouwer"])
+        T, _v = gen_aff(ctx, kind)
+        T.scalar = False
+        kept.clear()
+        first = None
+        for step in range(ctx.rng.randint(3, 6)):
+            den = 8
+            v0 = [ctx.rng.randint(0, den) / den for _ in range(T.n)]
+            meth = ctx.rng.choice(["iteration", "imitation_game"])
+            tol = ctx.rng.choice([1e-2, 1e-4, 0.0])
+            mi = ctx.rng.choice([1, 2, 5, 30])
+            v = np.array(v0)
+            vb = v.tobytes()
+            n_before = len(T.calls_in)
+            with warnings.catch_warnings(record=True) as wl:
+                warnings.simplefilter("always")
+                r = qe.compute_fixed_point(T, v, tol, mi, 1, 5, meth)
+            warned = any("max_iter attained" in str(w.message) for w in wl)
+            evals = len(T.calls_in) - n_before
+            rp = {"op": "compute_fixed_point", "A": T.A, "b": T.b, "box": T.box, "v0": v0, "tol": tol, "max_iter": mi,
+                  "method": meth, "history_step": step, "returned": [float(t) for t in np.atleast_1d(r)]}
+            ctx.count("history:cfp:%s" % meth)
+            if meth == "iteration":
+                # documented: an ndarray v is modified in place; the object returned is v itself
+                if r is not v:
+                    ctx.spec_fail("iteration_returns_v", "method='iteration' did not return the (updated) array it was given", rp)
+            else:
+                its = evals // 2
+                if its == 1:
+                    if r is not v and np.shares_memory(np.asarray(r), v):
+                        ctx.spec_fail("aliasing:input", "imitation_game returned a view of v", rp)
+                else:
+                    no_share("compute_fixed_point(imitation_game)", [np.asarray(r)], [v], "input", rp)
+                if v.tobytes() != vb:
+                    ctx.spec_fail("input_modified", "method='imitation_game' modified v", rp)
+                rq = F(np.atleast_1d(r))
+                resid = max(abs(a - c) for a, c in zip(T.exact(rq), rq))
+                if not warned and resid > Fraction(tol) * (1 + SLACK) + Fraction(1, 10 ** 13):
+                    ctx.spec_fail("ig_residual", "no warning but max|T(v)-v| = %.6e > tol = %g" % (float(resid), tol), rp)
+            no_share("compute_fixed_point", [np.asarray(r)], [a for _, arrs, _, _ in kept for a in arrs], "earlier-result", rp)
+            keep("compute_fixed_point call %d (%s)" % (step, meth), [r], rp)
+            rejudge("compute_fixed_point call %d (%s)" % (step, meth))
+            if first is None:
+                first = (v0, tol, mi, meth, np.asarray(r).tobytes(), warned)
+        # the first call again, on a fresh map object: same bits (the answer is a function of the arguments only)
+        v0, tol, mi, meth, b0, w0 = first
+        T2 = AffMap(T.A, T.b, T.box)
+        with warnings.catch_warnings(record=True) as wl:
+            warnings.simplefilter("always")
+            r2 = qe.compute_fixed_point(T2, np.array(v0), tol, mi, 1, 5, meth)
+        if np.asarray(r2).tobytes() != b0 or any("max_iter attained" in str(w.message) for w in wl) != w0:
+            ctx.spec_fail("history_dependence", "compute_fixed_point gave another answer when the same call was repeated",
+                          {"A": T.A, "b": T.b, "box": T.box, "v0": v0, "tol": tol, "max_iter": mi, "method": meth})
+
+    # mclennan_tourky: several calls on ONE game object, interleaved with its other methods and with other games
+    other_games = []
+    for _ in range(ctx.n(12, 80)):
+        nums, pays, kind = gen_game(ctx)
+        N = len(nums)
+        pristine = [P.copy() for P in pays]
+        g = NormalFormGame([Player(P) for P in pays])
+        other_games.append((nums, g))
+        own = lambda: [pl.payoff_array for pl in g.players]
+        own_bytes = [a.tobytes() for a in own()]
+        pays_q = q_arrays(pristine)
+        kept.clear()
+        for step in range(ctx.rng.randint(2, 5)):
+            init, init_wire, init_denotes = gen_init(ctx, nums)
+            init_arrs = [t for t in (init if not isinstance(init, np.ndarray) else [init]) if isinstance(t, np.ndarray)]
+            init_bytes = [t.tobytes() for t in init_arrs]
+            eps = ctx.rng.choice([1e-2, 1e-3, 1e-4])
+            mi = ctx.rng.choice([1, 2, 5, 30, 100])
+            # interleave: the game's own queries, and a run on another game of the process
+            t = ctx.rng.randrange(4)
+            if t == 0:
+                g.is_nash(tuple(0 for _ in nums))
+            elif t == 1:
+                g.players[0].best_response(tuple(0 for _ in nums[1:]) if N > 2 else 0)
+            elif t == 2 and len(other_games) > 1:
+                n2, g2 = ctx.rng.choice(other_games[:-1])
+                mt_mod.mclennan_tourky(g2, None, 1e-2, 3)
+            NE, res = mt_mod.mclennan_tourky(g, init, eps, mi, full_output=True)
+            rp = {"op": "mclennan_tourky", "nums": nums, "payoff_arrays": [P.tolist() for P in pristine], "init": init_repr(init),
+                  "epsilon": eps, "max_iter": mi, "history_step": step, "NE": [list(map(float, a)) for a in NE],
+                  "converged": bool(res.converged), "num_iter": int(res.num_iter)}
+            ctx.count("history:mt:calls-on-one-game")
+            if [a.tobytes() for a in own()] != own_bytes:
+                ctx.spec_fail("game_modified", "mclennan_tourky modified the game's payoff arrays", rp)
+            if [t.tobytes() for t in init_arrs] != init_bytes:
+                ctx.spec_fail("input_modified", "mclennan_tourky modified init", rp)
+            no_share("mclennan_tourky", list(NE), own(), "object-arrays", rp)
+            no_share("mclennan_tourky", list(NE), init_arrs, "input", rp)
+            no_share("mclennan_tourky", list(NE), [a for _, arrs, _, _ in kept for a in arrs], "earlier-result", rp)
+            # oracle
+            prof_q = [F(a) for a in NE]
+            gain, _ = nash_margins(nums, pays_q, prof_q, Fraction(eps))
+            if res.converged:
+                if any(len(a) != n or any(x < -Fraction(1, 10 ** 12) for x in a) or abs(sum(a) - 1) > ENV for a, n in zip(prof_q, nums)):
+                    ctx.spec_fail("mt_probability_vector", "converged, but the profile is not made of probability vectors", rp)
+                if gain < -SLACK:
+                    ctx.spec_fail("mt_epsilon_nash", "converged, but some player can gain %.6e more than epsilon=%g" % (float(-gain), eps), rp)
+            elif res.num_iter != mi:
+                ctx.spec_fail("mt_not_converged_early", "not converged after %d < max_iter=%d iterations" % (res.num_iter, mi), rp)
+            if res.num_iter > mi:
+                ctx.spec_fail("mt_num_iter", "num_iter %d > max_iter %d" % (res.num_iter, mi), rp)
+            # the same call on a freshly built game object
+            gf = NormalFormGame([Player(P.copy()) for P in pristine])
+            NEf, resf = mt_mod.mclennan_tourky(gf, init, eps, mi, full_output=True)
+            if [a.tobytes() for a in NEf] != [a.tobytes() for a in NE] or resf.converged != res.converged or resf.num_iter != res.num_iter:
+                ctx.spec_fail("history_dependence", "mclennan_tourky on a used game object differs from the same call on a fresh one", rp)
+            keep("mclennan_tourky call %d" % step, list(NE), rp)
+            rejudge("mclennan_tourky call %d" % step)
+
+    # polym_lcp_solver: several calls on ONE PolymatrixGame, interleaved with its other methods
+    for _ in range(ctx.n(8, 50)):
+        N, nums, generic, mats = gen_poly()
+        pg = PolymatrixGame(mats)
+        pristine = {k: np.array(v, dtype=float) for k, v in mats.items()}
+        matq = {k: [[Fraction(t) for t in r] for r in v] for k, v in mats.items()}
+        scale = 1 + max(abs(t) for v in matq.values() for r in v for t in r) * N
+        kept.clear()
+        for step in range(ctx.rng.randint(2, 5)):
+            st = tuple(ctx.rng.randrange(n) for n in nums)
+            t = ctx.rng.randrange(3)
+            if t == 0:
+                pg.range_of_payoffs()
+            elif t == 1:
+                pg.to_nfg()
+            NE, res = poly_case(N, nums, generic, mats, pg, matq, scale, st)   # oracle + correspondence inside
+            rp = {"op": "polym_lcp_solver", "matrices": {"%d,%d" % k: v for k, v in mats.items()}, "start": list(st),
+                  "history_step": step, "NE": [list(map(float, a)) for a in NE]}
+            ctx.count("history:polym:calls-on-one-game")
+            for k, v in pg.polymatrix.items():
+                if np.asarray(v, dtype=float).tobytes() != pristine[k].tobytes():
+                    ctx.spec_fail("game_modified", "polym_lcp_solver modified polymatrix[%s]" % (k,), rp)
+            no_share("polym_lcp_solver", list(NE), [np.asarray(v) for v in pg.polymatrix.values()], "object-arrays", rp)
+            no_share("polym_lcp_solver", list(NE), [a for _, arrs, _, _ in kept for a in arrs], "earlier-result", rp)
+            pf = PolymatrixGame({k: v.copy() for k, v in pristine.items()})
+            NEf, resf = polym_lcp_solver(pf, starting_player_actions=list(st), max_iter=int(res.max_iter), full_output=True)
+            if [a.tobytes() for a in NEf] != [a.tobytes() for a in NE] or resf.converged != res.converged or resf.num_iter != res.num_iter:
+                ctx.spec_fail("history_dependence", "polym_lcp_solver on a used game object differs from the same call on a fresh one", rp)
+            keep("polym_lcp_solver call %d" % step, list(NE), rp)
+            rejudge("polym_lcp_solver call %d" % step)
+
+    # unlisted finding (counted, not raised, until it is listed in known_findings.txt): max_iter given as an 8-bit NumPy
+    # integer >= 128 keeps buff_size = min(max_iter, 2**8) an 8-bit integer, `buff_size*2+1` wraps around, the tableaux
+    # are allocated too narrow and _initialize_tableaux_ig is called on views narrower than 2m+1 columns once m is large
+    # enough (Numba does not check bounds).  Probed without letting the kernel run on such views.
+    class _Narrow(Exception):
+        pass
+    orig_init_ig = cfp._initialize_tableaux_ig
+
+    def guard_init_ig(X, Y, tableaux, bases):
+        m = X.shape[0]
+        if tableaux[0].shape[1] != 2 * m + 1 or tableaux[1].shape[1] != 2 * m + 1:
+            raise _Narrow("m=%d, tableau views of shape %s" % (m, tableaux[0].shape))
+        return orig_init_ig(X, Y, tableaux, bases)
+    cfp._initialize_tableaux_ig = guard_init_ig
+    try:
+        Tm = AffMap([[0, -1.5, 0], [1.5, 0, 0.25], [0.5, 0.5, -1]], [1, 0.2, 0.4], (0.0, 1.0))
+        with warnings.catch_warnings():
+            warnings.simplefilter("ignore")
+            try:
+                qe.compute_fixed_point(Tm, np.array([.25, .25, .25]), 1e-9, np.uint8(200), 1, 5, "imitation_game")
+                ctx.count("probe:uint8-max_iter:ok")
+            except _Narrow as e:
+                key = "ig_narrow_tableaux_8bit_max_iter"
+                if key in ctx.known:
+                    ctx.spec_fail(key, str(e), {"max_iter": "np.uint8(200)"})
+                else:
+                    ctx.count("unlisted-finding:" + key)
+                    ctx.extra["unlisted_finding_" + key] = (
+                        "compute_fixed_point(T, [.25,.25,.25], 1e-9, np.uint8(200), method='imitation_game') with "
+                        "T(x)=clip(Ax+b,0,1), A=[[0,-1.5,0],[1.5,0,.25],[.5,.5,-1]], b=[1,.2,.4]: " + str(e))
+    finally:
+        cfp._initialize_tableaux_ig = orig_init_ig
 
     # init forms outside the documented domain ("an integer or an array of floats"): 0-d arrays, bools, float scalars.
     # What the code does with them is part of the model (`flattenInitForms`) and compared exactly; no verdict of the
